@@ -327,6 +327,38 @@ fn exhaustive_body(case: &Exh, ctx: &mut CaseCtx) -> PropResult {
     Ok(())
 }
 
+/// Values longer than any buffer the codecs pre-size (64 Ki items): lengths around and above the cap.
+#[derive(Clone, Debug, Serialize, Deserialize)]
+pub struct LongCase {
+    pub kind: String,
+    pub n: usize,
+    /// another entry follows the long one in the blob
+    pub followed: bool,
+}
+
+pub fn long_value(kind: &str, n: usize) -> GVal {
+    let f = |x: f32| x.to_bits();
+    match kind {
+        "NumberSequence" => GVal::NumberSequence((0..n).map(|i| [f(i as f32 / n as f32), f((i % 97) as f32), f((i % 7) as f32)]).collect()),
+        "ColorSequence" => GVal::ColorSequence((0..n).map(|i| (f(i as f32 / n as f32), [f((i % 3) as f32), f((i % 5) as f32 * 0.25), f((i % 11) as f32 * 0.0625)])).collect()),
+        "BinaryString" => GVal::BinaryString((0..n).map(|i| (i * 31 % 251) as u8).collect()),
+        _ => GVal::String((0..n).map(|i| (b'a' + (i % 23) as u8) as char).collect()),
+    }
+}
+
+fn long_body(c: &LongCase, ctx: &mut CaseCtx) -> PropResult {
+    ctx.nontrivial_if(c.n > 65536);
+    ctx.label_if(c.followed, "long_value_followed_by_another_entry");
+    let mut entries = vec![("a_long".to_string(), long_value(&c.kind, c.n))];
+    if c.followed {
+        entries.push(("b_after".to_string(), GVal::Bool(true)));
+        entries.push(("c_after".to_string(), GVal::Float64(2.5f64.to_bits())));
+    }
+    body(&AttrCase { entries, shuffle: vec![] }, ctx)
+}
+
+pub const LONG_LENGTHS: &[usize] = &[65_535, 65_536, 65_537, 65_538, 100_000, 131_072, 131_073, 200_001];
+
 pub fn run(ctx: &Ctx) -> PropertyReport {
     let mut rep = PropertyReport::new(
         "C14",
@@ -351,6 +383,17 @@ pub fn run(ctx: &Ctx) -> PropertyReport {
     if sub.runs("file-blobs") {
         let cases = ctx.cfg.cases(20_000, 300_000);
         rep.push(ctx.run_prop("file-blobs", cases, || attr_case(8), file_blob_body));
+    }
+    if sub.runs("long-values") {
+        let mut cases = Vec::new();
+        for kind in ["NumberSequence", "ColorSequence", "BinaryString", "String"] {
+            for n in LONG_LENGTHS {
+                for followed in [false, true] {
+                    cases.push(LongCase { kind: kind.to_string(), n: *n, followed });
+                }
+            }
+        }
+        rep.push(ctx.run_list("long-values", cases, true, long_body));
     }
     if sub.runs("exhaustive") {
         let mut cases: Vec<Exh> = (0..=255u8).map(Exh::RotationId).collect();
